@@ -71,7 +71,7 @@ out=f"/verif/seeded/{P}-{M}"
 meta={"property":P,"mutation":M,"source":"independent sub-agent given only the property text and a scratch worktree",
  "changed_dirs":changed.split(),
  "confirmed":{"demo_passes_without_patch":rc_clean=="0","demo_fails_with_patch":rc_mut!="0","builds_with_patch":rc_build=="0","existing_suite_passes_with_patch":rc_suite=="0"},
- "detected_by_checks":det.split(),"ran":"scripts/confirm_seed.sh (see confirm.log)"}
+ "detected_by_checks":list(dict.fromkeys(det.split())),"ran":"scripts/confirm_seed.sh (see confirm.log)"}
 json.dump(meta,open(out+"/meta.json","w"),indent=1)
 print(json.dumps(meta))
 PY
